@@ -297,6 +297,24 @@ def run(pid, tier, replay=None):
                 for k in range(steps):
                     # after a roll-back the node no longer holds the unvalidated blocks: build only on what it serves
                     rt.stored = [a for a in rt.stored if w3.by_abs[a].hash() in run_.node.chain().block_by_hash]
+                    def shared_tx():
+                        # a transaction contained in two stored blocks is read back in the first one only (F-C08, C08's recorded finding):
+                        # histories that contain one are not restarted here
+                        seen_ = set()
+                        for b_ in run_.node.chain().block_by_hash.values():
+                            for t_ in b_.transactions:
+                                h_ = t_.hash()
+                                if h_ in seen_:
+                                    return True
+                                seen_.add(h_)
+                        return False
+                    if k > 2 and rng.random() < 0.07 and not shared_tx():
+                        # the node process dies and is started again on its store (read_chain_from_disk, NetworkingThread start-up)
+                        run_.restart()
+                        lab.append(["restart"])
+                        pend_desc = []
+                        rt.stored = [a for a in rt.stored if w3.by_abs[a].hash() in run_.node.chain().block_by_hash]
+                        continue
                     act = rng.random()
                     if held and rng.random() < 0.15:          # an earlier transaction is submitted again (a lagging peer re-broadcasts it)
                         openp = [p for p in run_.peers if run_.node.is_open(p)]
